@@ -1,5 +1,7 @@
 mod common;
 mod model;
+mod props_algebra;
+mod props_lang;
 mod props_query;
 mod space;
 
@@ -22,6 +24,8 @@ fn replay(prop: &str, file: &str) -> i32 {
     let run = || -> bool {
         match kind.as_str() {
             "exhaustive" => props_query::replay_exhaustive(&case),
+            "family" => props_algebra::replay_family(&case),
+            "lang" => props_lang::replay_lang(&case),
             "depth" => props_query::replay_depth(&case),
             "text-other" | "text-self" | "text-cased" => props_query::replay_text(&case),
             "root" | "root-sometimes" | "semantic" => props_query::replay_root(&case),
@@ -99,6 +103,8 @@ fn main() {
         std::process::exit(replay(&prop, &f));
     }
     let code = match prop.as_str() {
+        "C01" => props_lang::c01(tier),
+        "C07" => props_algebra::c07(tier),
         "C09" => props_query::c09(tier),
         "C10" => props_query::c10(tier),
         "C11" => props_query::c11(tier),
